@@ -1039,3 +1039,31 @@ mod tests {
         assert_eq!(Some("hash1:00"), qualifiers.get(Checksum::KEY));
     }
 }
+
+/// Verification hooks: thin public wrappers over private items. No behavior of their own.
+#[cfg(feature = "verif")]
+#[doc(hidden)]
+pub mod verif_qualifiers {
+    use super::*;
+
+    pub fn is_valid_qualifier_name(k: &str) -> bool {
+        super::is_valid_qualifier_name(k)
+    }
+
+    /// `Ok((classified_as_lower, stored_key))` or the error of `check_qualifier_key`.
+    pub fn check_qualifier_key(k: &str) -> Result<(bool, QualifierKey), ParseError> {
+        let key = super::check_qualifier_key(k)?;
+        let lower = matches!(key, MixedQualifierKey::Lower(_));
+        Ok((lower, key.into_key()))
+    }
+
+    /// The backing storage, in storage order.
+    pub fn raw(q: &Qualifiers) -> &[(QualifierKey, SmallString)] {
+        &q.qualifiers
+    }
+
+    pub fn search(q: &Qualifiers, k: &str) -> Option<Result<usize, usize>> {
+        let key = super::check_qualifier_key(k).ok()?;
+        Some(q.search(&key))
+    }
+}
